@@ -3,6 +3,41 @@
 //! This library aims to provide a compatible API with ZeroMQ patterns
 //! while leveraging Rust's safety and Tokio's asynchronous capabilities.
 
+// Verification hooks (see verif.rs). With `--cfg rzmq_verif` off both macros expand to nothing.
+#[cfg(rzmq_verif)]
+macro_rules! verif_point {
+  ($name:expr) => {
+    $crate::verif::point($name)
+  };
+}
+#[cfg(not(rzmq_verif))]
+macro_rules! verif_point {
+  ($name:expr) => {};
+}
+#[cfg(rzmq_verif)]
+macro_rules! verif_event {
+  ($ev:expr) => {
+    if $crate::verif::recording() {
+      $crate::verif::event($ev, "");
+    }
+  };
+  ($ev:expr, $($fmt:tt)+) => {
+    if $crate::verif::recording() {
+      $crate::verif::event($ev, &format!($($fmt)+));
+    }
+  };
+}
+#[cfg(not(rzmq_verif))]
+macro_rules! verif_event {
+  ($ev:expr) => {};
+  ($ev:expr, $($fmt:tt)+) => {};
+}
+#[allow(unused_imports)]
+pub(crate) use {verif_event, verif_point};
+
+#[cfg(rzmq_verif)]
+pub mod verif;
+
 // These modules encapsulate different aspects of the ZMQ implementation.
 
 /// Defines the `Context`, which is the entry point for creating sockets.
